@@ -46,10 +46,14 @@ struct Victim {
     readonly: bool,
     /// contains `${x?}`
     expansion: bool,
+    /// commands to run first (own lines), e.g. `v3=a`, `readonly v3`
+    setup: Vec<Cmd>,
 }
 
 fn victims() -> Vec<Victim> {
-    let v = |name: &'static str, cmd: Cmd| Victim { name, cmd, needs_fun: false, readonly: false, expansion: false };
+    let v = |name: &'static str, cmd: Cmd| Victim { name, cmd, needs_fun: false, readonly: false, expansion: false, setup: vec![] };
+    let ro = |name: &'static str, setup: Vec<Cmd>, cmd: Cmd| Victim { name, cmd, needs_fun: false, readonly: false, expansion: false, setup };
+    let a_ro = || vec![Cmd::Assign(3, Word::Lit(0)), Cmd::Readonly(3)];
     vec![
         v("probe fails", probe(50, 3)),
         v("false", call(Name::False, &[])),
@@ -67,7 +71,7 @@ fn victims() -> Vec<Victim> {
         v("break 0", call(Name::Break, &[0])),
         v("continue 1 2", call(Name::Continue, &[1, 2])),
         v("exit 1 2", call(Name::Exit, &[1, 2])),
-        Victim { name: "return 1 2", cmd: call(Name::Return, &[1, 2]), needs_fun: true, readonly: false, expansion: false },
+        Victim { name: "return 1 2", cmd: call(Name::Return, &[1, 2]), needs_fun: true, readonly: false, expansion: false, setup: vec![] },
         v("break (maybe outside a loop)", call(Name::Break, &[])),
         v("special redirection", Cmd::Call(bad(), Name::Colon, vec![])),
         v("special redirection (set)", Cmd::Call(bad(), Name::Set, vec![1])),
@@ -80,13 +84,14 @@ fn victims() -> Vec<Victim> {
         v("function redirection", Cmd::Call(bad(), Name::User(1), vec![])),
         v("not found + redirection", Cmd::Call(bad(), Name::User(9), vec![])),
         v("compound redirection", Cmd::RedirFail(Box::new(Cmd::Brace(l1(probe(56, 0)))))),
-        Victim { name: "expansion error (assignment)", cmd: Cmd::Assign(0, Word::Req(2)), needs_fun: false, readonly: false, expansion: true },
+        Victim { name: "expansion error (assignment)", cmd: Cmd::Assign(0, Word::Req(2)), needs_fun: false, readonly: false, expansion: true, setup: vec![] },
         Victim {
             name: "expansion error (for)",
             cmd: Cmd::For(0, vec![Word::Lit(0), Word::Req(2)], l1(probe(57, 0))),
             needs_fun: false,
             readonly: false,
             expansion: true,
+            setup: vec![],
         },
         Victim {
             name: "expansion error (case)",
@@ -94,15 +99,43 @@ fn victims() -> Vec<Victim> {
             needs_fun: false,
             readonly: false,
             expansion: true,
+            setup: vec![],
         },
-        Victim { name: "assignment error", cmd: Cmd::Assign(1, Word::Lit(0)), needs_fun: false, readonly: true, expansion: false },
+        Victim { name: "assignment error", cmd: Cmd::Assign(1, Word::Lit(0)), needs_fun: false, readonly: true, expansion: false, setup: vec![] },
         Victim {
             name: "assignment error (for)",
             cmd: Cmd::For(1, vec![Word::Lit(0)], l1(probe(59, 0))),
             needs_fun: false,
             readonly: true,
             expansion: false,
+            setup: vec![],
         },
+        // a read-only variable: the check does not look at the value
+        ro("assignment error, same value", a_ro(), Cmd::Assign(3, Word::Lit(0))),
+        ro("assignment error, different value", a_ro(), Cmd::Assign(3, Word::Lit(1))),
+        ro("assignment error, its own value", a_ro(), Cmd::Assign(3, Word::Var(3))),
+        ro("assignment error, no prior value, empty", vec![Cmd::Readonly(3)], Cmd::Assign(3, Word::Var(2))),
+        ro("assignment error, prefix of a special built-in, same value", a_ro(), Cmd::PrefixCall(3, Word::Lit(0), Name::Colon, vec![])),
+        ro("assignment error, prefix of a special built-in, different value", a_ro(), Cmd::PrefixCall(3, Word::Lit(1), Name::Colon, vec![])),
+        ro("assignment error, prefix of a regular built-in, same value", a_ro(), Cmd::PrefixCall(3, Word::Lit(0), Name::Probe, vec![64])),
+        ro("assignment error, prefix of a regular built-in, different value", a_ro(), Cmd::PrefixCall(3, Word::Lit(1), Name::Probe, vec![64])),
+        ro("assignment error, prefix of a function, same value", a_ro(), Cmd::PrefixCall(3, Word::Lit(0), Name::User(1), vec![])),
+        ro("assignment error, prefix of a command not found, same value", a_ro(), Cmd::PrefixCall(3, Word::Lit(0), Name::User(9), vec![])),
+        ro("assignment error, command substitution, same value", a_ro(), Cmd::AssignSub(3, l1(probe(65, 0)))),
+        v(
+            "prefix assignment, special built-in (persists)",
+            Cmd::Brace(seq(vec![
+                Cmd::PrefixCall(3, Word::Lit(1), Name::Colon, vec![]),
+                Cmd::Case(Word::Var(3), vec![(vec![Pat::Lit(1)], l1(probe(66, 3)), Cont::Break)]),
+            ])),
+        ),
+        v(
+            "prefix assignment, regular built-in (temporary)",
+            Cmd::Brace(seq(vec![
+                Cmd::PrefixCall(3, Word::Lit(1), Name::Probe, vec![67, 3]),
+                Cmd::Case(Word::Var(3), vec![(vec![Pat::Lit(1)], l1(probe(68, 0)), Cont::Break)]),
+            ])),
+        ),
         v("command break 0", Cmd::Call(via(), Name::Break, vec![0])),
         v("command exit 1 2", Cmd::Call(via(), Name::Exit, vec![1, 2])),
         v("command not found", Cmd::Call(via(), Name::User(9), vec![])),
@@ -111,7 +144,7 @@ fn victims() -> Vec<Victim> {
         v("command function (not searched)", Cmd::Call(via(), Name::User(1), vec![])),
         v("exit 3", call(Name::Exit, &[3])),
         v("exit", Cmd::Brace(seq(vec![probe(62, 6), call(Name::Exit, &[])]))),
-        Victim { name: "return 3", cmd: call(Name::Return, &[3]), needs_fun: true, readonly: false, expansion: false },
+        Victim { name: "return 3", cmd: call(Name::Return, &[3]), needs_fun: true, readonly: false, expansion: false, setup: vec![] },
         v("succeeds", probe(63, 0)),
     ]
 }
@@ -469,6 +502,9 @@ fn main() {
                     if vi.readonly {
                         p.push(Line::Cmd(l1(Cmd::Readonly(1))));
                     }
+                    for c in &vi.setup {
+                        p.push(Line::Cmd(l1(c.clone())));
+                    }
                     // f1() { probe 60; return 3; }
                     p.push(Line::Cmd(l1(Cmd::FunDef(
                         Name::User(1),
@@ -516,6 +552,9 @@ fn main() {
             if vi.readonly {
                 p.push(Line::Cmd(l1(Cmd::Readonly(1))));
             }
+            for c in &vi.setup {
+                p.push(Line::Cmd(l1(c.clone())));
+            }
             p.push(Line::Cmd(l1(Cmd::FunDef(
                 Name::User(1),
                 Box::new(Cmd::Brace(seq(vec![probe(60, 0), call(Name::Return, &[3])]))),
@@ -561,6 +600,8 @@ fn main() {
                 || name.contains("own EXIT trap")
                 || name.contains("${x?} of an empty")
                 || name.contains("minimal, inside the EXIT trap")
+                || ((name.contains("same value") || name.contains("its own value") || name.contains("no prior value"))
+                    && (name.contains("/ top level /") || name.contains("/ function /")))
         };
         let (mut must, mut rest): (Vec<usize>, Vec<usize>) = idx.iter().partition(|i| always(&planted[**i].0));
         // Fisher-Yates with the run's PRNG
@@ -604,6 +645,7 @@ fn main() {
                     || name.contains(". missing file")
                     || name.contains("expansion error")
                     || name.contains("assignment error")
+                    || name.contains("prefix assignment")
                     || name.contains("syntax error")
                     || name.contains("break (maybe")))
                 || name.contains("monitor")
@@ -703,7 +745,7 @@ fn scrub_error_sources(p: &mut Prog) {
         match c {
             Cmd::Assign(_, w) => word(w),
             Cmd::Readonly(x) => *c = Cmd::Assign(*x, Word::Lit(0)),
-            Cmd::Call(..) => {}
+            Cmd::Call(..) | Cmd::PrefixCall(..) => {}
             Cmd::Brace(l) | Cmd::Subshell(l) | Cmd::TrapExit(l) | Cmd::AssignSub(_, l) | Cmd::SubstArg(l) => list(l),
             Cmd::Async(a) => {
                 let mut l = vec![(**a).clone()];
